@@ -201,6 +201,21 @@ def expected(case, services):
         ds = it.get("ds")
         dsc = ds_class(ds)
         exp_ds = None
+        if rtype == "N-CREATE" and not case.get("with_instance", True) and status == 0x0000:
+            # documented: without (0000,1000) in the request a Success needs it in the handler's dataset ("should
+            # include"); what is answered when it is missing is not documented
+            kws = [k for k, _ in ds["elems"]] if dsc in ("dataset", "empty-dataset") else []
+            if "AffectedSOPInstanceUID" not in kws:
+                return [], False
+        if (
+            dsc in ("unencodable", "not-a-dataset")
+            and status is not None
+            and status not in N_DATASET_STATUS.get(rtype, ())
+            and category(status) in ("Success", "Warning")
+        ):
+            # a Success/Warning-class code of some service class together with a dataset that cannot be sent: either
+            # the code is echoed (dataset not applicable) or a failure is reported - not pinned by the documentation
+            return [], False
         if status in N_DATASET_STATUS.get(rtype, ()) and why in ("int", "ds-status", "ds-status+optional"):
             if dsc == "dataset":
                 exp_ds = ds
